@@ -149,8 +149,7 @@ def run(rep):
             b = S.alg.bdd
             all_digits = b.NOT(b.var(("any", ("B", b.NOT(rsp)))))
             rs0 = S.canon(("at", rs, ("int", 0)))
-            wsum = ("wsum", ("int", 1), ("int", U), ("V", rs0, L))
-            link = S.alg.zero_atom(S.alg.poly(("sub", ("poly", ((((wsum, 1),), 1),)), arg(4))))
+            link = S.alg.zero_atom(S.alg.wsum_poly(("int", 1), ("int", U), S.alg.poly(rs0), L).add(S.alg.poly(arg(4)), -1))
             want = b.AND(all_digits, link)
     if want is not None and got == want and want not in (0, 1):
         rep.ok("verify-exact", "RangeConstraint::verify_range_constraint",
